@@ -126,10 +126,19 @@ def replay(case):
                 if max(abs(v - nr[0]) for v in nr) > 1e-9 * nr[0]:
                     out.append(('%s:norm_preserved' % name, '2-norm not preserved for a skew-Hermitian generator: %r' % (nr,)))
             S, L, I, M = lib_args()
-            soln = f(S, L, I, M, x0, h, 2, threshold=0, max_rank=200, normalize=2)
-            for t in soln[1:]:
+            soln = f(S, L, I, M, x0, h, 3, threshold=0, max_rank=200, normalize=2)
+            wn = x0d.astype(complex)
+            for k, t in enumerate(soln[1:]):
                 if abs(np.linalg.norm(contract(t.cores)) - 1) > 1e-9:
                     out.append(('%s:normalize' % name, 'normalize=2 returned a state of norm %r' % np.linalg.norm(contract(t.cores))))
+                    break
+                # every entry (not only the last one) is the normalised image of its predecessor
+                wn = P @ wn
+                wn = wn / np.linalg.norm(wn)
+                g = contract(t.cores).reshape(-1)
+                if g.shape != wn.shape or np.linalg.norm(g - wn) > 1e-9:
+                    out.append(('%s:normalize:value:%s' % (name, kind), 'normalize=2: state %d differs from the normalised product of local '
+                                'propagators (error %.3e)' % (k + 1, np.linalg.norm(g - wn) if g.shape == wn.shape else np.inf)))
                     break
         except Exception as e:
             out.append(('%s:exception:%s' % (name, type(e).__name__), '%r (cfg %r)' % (e, cfg)))
